@@ -412,19 +412,22 @@ def w1_rpname_walk(ctx, prog, cg):
     if P is None:
         raise AnalysisBroken('no helper reading the "PPid" key of /proc/<pid>/status reachable from rpname')
     W = None
-    pc = None
     for g in fs:
-        for c in g.calls(P.name):
-            if g is not P:
-                W, pc = g, c
-                break
-        if W is not None:
+        if g is not P and g.calls(P.name):
+            W = g
             break
     if W is None:
         raise AnalysisBroken('%s is never called' % P.name)
-    hv = common.holder(W, pc)
-    if hv is None:
+    sites = [c for c in W.calls(P.name) if common.holder(W, c) is not None]
+    if not sites:
         raise AnalysisBroken('the result of %s is not kept in a variable in %s' % (P.name, W.name))
+    for si, pc in enumerate(sorted(sites, key=lambda c: (c.line, c.get('col', 0)))):
+        _w1_site(ctx, prog, W, P, pc, si, lit_args)
+
+
+def _w1_site(ctx, prog, W, P, pc, site_index, lit_args):
+    chk = ctx.chk
+    hv = common.holder(W, pc)
     pos = C.position_of(W, pc) if hasattr(C, 'position_of') else None
     if pos is None:
         for b, blk in W.blocks.items():
@@ -467,7 +470,7 @@ def w1_rpname_walk(ctx, prog, cg):
                     name_read.append(e)
                 else:
                     up.append(e)   # reads the name of the parent, not of the current process
-            elif e.get('callee') in (P.name, W.name) and e is not pc or (e.get('callee') == P.name and e is pc and False):
+            elif e.get('callee') in (P.name, W.name):    # (reaching the same lookup again round a loop counts as well)
                 if a0 is not None and (a0['id'] == hv or a0['id'] in assigned):
                     up.append(e)
             elif e.get('callee') in fmt.PRINTF_FAMILY and any('unknown' in (l or '') for l in lit_args(e)):
@@ -492,6 +495,6 @@ def w1_rpname_walk(ctx, prog, cg):
             ok = bool(up) and not any(True for e in nr if els.index(e) < els.index(up[0]))
             detail = 'with an ordinary parent (pid %d) the walk must continue at that parent' % value
         at = (up or nr or unk or [pc])[0]
-        chk.ob('W1', 'rpname-walk[parent=%s]' % label, ok, at.where(), W.name, detail,
+        chk.ob('W1', 'rpname-walk[parent=%s%s]' % (label, '' if site_index == 0 else '@lookup%d' % (site_index + 1)), ok, at.where(), W.name, detail,
                how='parent pid %d: %s' % (value, {'name': 'reads "Name" of the current pid', 'unknown': 'emits (unknown)',
                                                    'up': 'calls %s / %s with the parent pid' % (P.name, W.name)}[want]))
